@@ -24,6 +24,7 @@ import (
 	"os"
 	"path/filepath"
 	"runtime"
+	"runtime/debug"
 	"sort"
 	"strconv"
 	"strings"
@@ -340,6 +341,11 @@ func refG(ref chunks.ChunkDiskMapperRef) string {
 
 // ---------------------------------------------------------------- recovery observation
 func iterate(m *chunks.ChunkDiskMapper) (cis []string, status string, cerr error) {
+	defer func() {
+		if p := recover(); p != nil {
+			status, cerr = "IPanic", fmt.Errorf("panic: %v", p)
+		}
+	}()
 	err := m.IterateAllChunks(func(sr chunks.HeadSeriesRef, ref chunks.ChunkDiskMapperRef, mint, maxt int64, ns uint16, enc chunkenc.Encoding, ooo bool) error {
 		cis = append(cis, fmt.Sprintf("(rc %s (mkCI %s %s %s %d %d %s))", refA(ref), gallina.N(uint64(sr)), gallina.Z(mint), gallina.Z(maxt), ns, enc, gallina.Bool(ooo)))
 		return nil
@@ -639,14 +645,16 @@ func (s *session) doneStep() {
 	if s.wk != 2 {
 		return
 	}
-	before := s.m.VerifQueueSize()
 	release <- struct{}{}
 	s.wk = 0
 	s.cur = nil
 	s.step("SDone", "ONone", "done")
 	s.e.meta.Hit("op-done")
 	s.maybePop()
-	want := before - 1
+	want := len(s.queued) // refs that may still be in chunkRefMap: queued jobs + the one at the worker
+	if s.wk == 1 {
+		want++
+	}
 	for i := 0; s.m.VerifQueueSize() > want; i++ {
 		if i > 4000000 {
 			panic("h_c25: job never left chunkRefMap")
@@ -1034,6 +1042,9 @@ func (e *env) corpus() {
 
 func main() {
 	f := gallina.ParseFlags()
+	// a read through a mapping beyond the end of its file must be a recoverable panic (-> RdPanic /
+	// IPanic observations), not a fatal SIGBUS
+	debug.SetPanicOnFault(true)
 	verifhook.SetHandler(hook)
 	meta := gallina.NewMeta("C25", f.Seed, f.Tier)
 	meta.Rule = "corpus (reproducer schedules) + seeded random sessions of WriteChunk/Chunk/CutNewFile/Truncate with the queue worker stepped by the harness (pop / write+callback / leave map), 1-3 sessions per directory separated by Close + reopen + head-style recovery, a few sessions with 9-64 KiB chunks (writer flushes), and the newest file truncated at chosen offsets (quick: 0,4,8, record starts/ends and +24/+34, each +-2, plus random; thorough: every offset). evaluations = emitted cases; distinct_nontrivial = trace cases with a distinct op/outcome sequence that wrote at least one chunk + restart cases with at least one chunk on disk or a truncated file"
@@ -1041,7 +1052,7 @@ func main() {
 		preamble: "From Coq Require Import List NArith ZArith Uint63.\nFrom Verif Require Import lib.Int64 lib.Bytes model.HeadChunks corr.CorrC25.\nImport ListNotations.\nOpen Scope N_scope.\n"}
 	e := &env{f: f, meta: meta, cf: cf, seen: map[string]bool{}, every: f.Tier == "thorough"}
 	e.corpus()
-	n := f.Count(30, 200)
+	n := f.Count(30, 120)
 	for i := 0; i < n; i++ {
 		e.randomScenario(f.Seed, i, 0)
 	}
